@@ -15,7 +15,7 @@ package stun
 
 //@ func compatAttrType(val)
 //@   safety C01 C02
-//@   props C01 C02
+//@   props C01 C02 C03 C04 C05 C06
 //@   pure
 //@   ensures result == compat(val)
 
@@ -73,14 +73,16 @@ package stun
 
 //@ func (*Message).Decode(m)
 //@   safety C01 C12
-//@   props C01 C08 C12
+//@   -- C03..C06 speak about messages on the wire: what their checkers, getters and lemmas know about a received
+//@   -- message is this contract, so a Decode that breaks it breaks them
+//@   props C01 C08 C12 C03 C04 C05 C06
 //@   requires m != nil
 //@   assigns m.Type, m.Length, m.TransactionID, m.Attributes, mem(m.Attributes)
 //@   ensures result == nil ==> DecodedViews(m)
 //@   ensures result == nil ==> len(m.Raw) >= 20 && be32(m.Raw, 4) == 0x2112A442
 // allocation clause of C01: the only growing allocation is the attribute list, and it holds at most one record per 4 input bytes
 //@   ensures result == nil ==> 4 * len(m.Attributes) <= len(m.Raw) - 20
-//@   props C02 C12
+//@   props C02 C12 C03 C04 C05 C06
 //@   ensures result == nil <==> accept(m.Raw, len(m.Raw))
 //@   ensures result == nil ==> DecodedContent(m)
 //@   loop 0
@@ -532,6 +534,7 @@ package stun
 //@   derives old(WireHdr(m) && WireLoc(m) && WireVal(m) && NoClobber(m, val)) ==> WireVal(m)
 //@   derives old(WireHdr(m) && WirePad(m)) ==> WirePad(m)
 //@   derives old(Wire(m)) ==> Wire(m)
+//@   derives old(Built(m)) ==> Built(m)
 //@   deriveuse forall(k, 0, old(len(m.Attributes)) + 1, vpos_frame(old(WLens(m)), WLens(m), k), vpos(WLens(m), k))
 //@   loop 0
 //@     assigns buf[0:len(buf)]
@@ -590,6 +593,9 @@ package stun
 //@   ensures be16(m.Raw, 0) == mtype(m.Type.Method, m.Type.Class) && be16(m.Raw, 2) == m.Length % 65536 && be32(m.Raw, 4) == 0x2112A442
 //@   ensures forall(j, 0, 12, m.Raw[8+j] == m.TransactionID[j])
 //@   ensures forall(i, 20, old(len(m.Raw)), m.Raw[i] == old(m.Raw[i]))
+//@   ensures old(len(m.Raw)) >= 20 ==> sameslice(m.Raw, old(m.Raw))
+//@   -- whatever the length was: the buffer the message had is only written in its first 20 bytes
+//@   ensures forall(x, 20, inf, old(m.Raw)[x] == old(m.Raw[x]))
 //@   props C03
 //@   ensures old(Wire(m)) ==> Wire(m)
 
@@ -653,6 +659,7 @@ package stun
 //@   ensures result == nil && Appended(m, a.Type, a.Value)
 //@   props C03
 //@   ensures old(Wire(m)) ==> Wire(m)
+//@   ensures old(Built(m)) ==> Built(m)
 
 // Interface contract of Setter (assumed for user setters; the library setters below are each proved against
 // their own, stronger contracts, under the size precondition Fits that the property states).
@@ -678,9 +685,11 @@ package stun
 //@   ensures Built(m)
 //@   ensures result == nil <==> ghost(setter_failed) == 0
 //@   ensures result != nil ==> ghost(setter_err_tag) == errtag(result) && ghost(setter_err_val) == errval(result)
+//@   ensures Wire(m)
 //@   loop 0
 //@     assigns *m, mem(m.Raw), mem(m.Attributes), ghost(setter_failed), ghost(setter_err_tag), ghost(setter_err_val)
 //@     invariant -1 <= rangeindex && Built(m) && ghost(setter_failed) == 0
+//@     invariant Wire(m)
 //@     invariant (region(m.Raw) == loopold(region(m.Raw)) || loopfresh(m.Raw)) && (region(m.Attributes) == loopold(region(m.Attributes)) || loopfresh(m.Attributes))
 //@     decreases len(setters) - rangeindex
 
@@ -697,6 +706,7 @@ package stun
 //@   ensures result == nil ==> Appended(m, t, v)
 //@   props C03
 //@   ensures old(Wire(m)) ==> Wire(m)
+//@   ensures old(Built(m)) ==> Built(m)
 
 //@ func Username.AddTo(u, m)
 //@   safety C09 C06
@@ -709,6 +719,7 @@ package stun
 //@   ensures result == nil ==> Appended(m, 0x0006, u)
 //@   props C03
 //@   ensures old(Wire(m)) ==> Wire(m)
+//@   ensures old(Built(m)) ==> Built(m)
 
 //@ func Realm.AddTo(n, m)
 //@   safety C09 C06
@@ -721,6 +732,7 @@ package stun
 //@   ensures result == nil ==> Appended(m, 0x0014, n)
 //@   props C03
 //@   ensures old(Wire(m)) ==> Wire(m)
+//@   ensures old(Built(m)) ==> Built(m)
 
 //@ func Nonce.AddTo(n, m)
 //@   safety C09 C06
@@ -733,6 +745,7 @@ package stun
 //@   ensures result == nil ==> Appended(m, 0x0015, n)
 //@   props C03
 //@   ensures old(Wire(m)) ==> Wire(m)
+//@   ensures old(Built(m)) ==> Built(m)
 
 //@ func Software.AddTo(s, m)
 //@   safety C09 C06
@@ -745,6 +758,7 @@ package stun
 //@   ensures result == nil ==> Appended(m, 0x8022, s)
 //@   props C03
 //@   ensures old(Wire(m)) ==> Wire(m)
+//@   ensures old(Built(m)) ==> Built(m)
 
 // AppendedHdr: as Appended, but the value bytes are described by the caller's own clauses.
 //@ define AppendedHdr(m, t, vl) = m.Length == old(m.Length) + 4 + pad4(vl) && len(m.Raw) == 20 + m.Length
@@ -775,6 +789,7 @@ package stun
 //@   ensures result == nil ==> forall(j, 0, len(c.Reason), NewValue(msg, 4 + j) == old(c.Reason[j]))
 //@   props C03
 //@   ensures old(Wire(msg)) ==> Wire(msg)
+//@   ensures old(Built(msg)) ==> Built(msg)
 
 //@ func isZeros(p)
 //@   safety C06 C09
@@ -808,6 +823,7 @@ package stun
 //@   ensures result == nil && len(a.IP) == 16 && !old(isIPv4spec(a.IP)) ==> AppendedHdr(msg, attrType, 20) && AddrHdr(msg, 2, uint16(a.Port)) && forall(j, 0, 16, NewValue(msg, 4+j) == old(a.IP[j]))
 //@   props C03
 //@   ensures old(Wire(msg)) ==> Wire(msg)
+//@   ensures old(Built(msg)) ==> Built(msg)
 
 //@ define isIPv4spec(ip) = forall(j, 0, 10, ip[j] == 0) && ip[10] == 255 && ip[11] == 255
 
@@ -825,6 +841,7 @@ package stun
 //@   ensures result == nil && len(a.IP) == 16 && !old(isIPv4spec(a.IP)) ==> AppendedHdr(msg, attr, 20) && AddrHdr(msg, 2, xor16(a.Port, 0x2112)) && forall(j, 0, 16, NewValue(msg, 4+j) == xor8(old(a.IP[j]), cookie_tid(msg, j)))
 //@   props C03
 //@   ensures old(Wire(msg)) ==> Wire(msg)
+//@   ensures old(Built(msg)) ==> Built(msg)
 
 //@ func XORMappedAddress.AddTo(a, m)
 //@   safety C09 C06
@@ -839,6 +856,7 @@ package stun
 //@   ensures result == nil && len(a.IP) == 16 && !old(isIPv4spec(a.IP)) ==> AppendedHdr(m, 0x0020, 20) && AddrHdr(m, 2, xor16(a.Port, 0x2112)) && forall(j, 0, 16, NewValue(m, 4+j) == xor8(old(a.IP[j]), cookie_tid(m, j)))
 //@   props C03
 //@   ensures old(Wire(m)) ==> Wire(m)
+//@   ensures old(Built(m)) ==> Built(m)
 
 //@ define MappedAddrSetter(a, m, t) = (result == nil <==> (len(a.IP) == 4 || len(a.IP) == 16)) && (result != nil ==> Unchanged(m))
 //@   | && (result == nil && len(a.IP) == 4 ==> AppendedHdr(m, t, 8) && AddrHdr(m, 1, uint16(a.Port)) && forall(j, 0, 4, NewValue(m, 4+j) == old(a.IP[j])))
@@ -853,6 +871,7 @@ package stun
 //@   ensures MappedAddrSetter(a, m, 0x0001)
 //@   props C03
 //@   ensures old(Wire(m)) ==> Wire(m)
+//@   ensures old(Built(m)) ==> Built(m)
 //@ func (*AlternateServer).AddTo(s, m)
 //@   safety C09 C06
 //@   props C09 C06 C03
@@ -862,6 +881,7 @@ package stun
 //@   ensures MappedAddrSetter(s, m, 0x8023)
 //@   props C03
 //@   ensures old(Wire(m)) ==> Wire(m)
+//@   ensures old(Built(m)) ==> Built(m)
 //@ func (*ResponseOrigin).AddTo(o, m)
 //@   safety C09 C06
 //@   props C09 C06 C03
@@ -871,6 +891,7 @@ package stun
 //@   ensures MappedAddrSetter(o, m, 0x802b)
 //@   props C03
 //@   ensures old(Wire(m)) ==> Wire(m)
+//@   ensures old(Built(m)) ==> Built(m)
 //@ func (*OtherAddress).AddTo(o, m)
 //@   safety C09 C06
 //@   props C09 C06 C03
@@ -880,6 +901,7 @@ package stun
 //@   ensures MappedAddrSetter(o, m, 0x802C)
 //@   props C03
 //@   ensures old(Wire(m)) ==> Wire(m)
+//@   ensures old(Built(m)) ==> Built(m)
 
 //@ func ErrorCode.AddTo(c, m)
 //@   safety C09 C06
@@ -894,6 +916,7 @@ package stun
 //@   ensures result == nil ==> forall(j, 0, len(errorReasons[c]), NewValue(m, 4 + j) == old(errorReasons[c][j]))
 //@   props C03
 //@   ensures old(Wire(m)) ==> Wire(m)
+//@   ensures old(Built(m)) ==> Built(m)
 
 // RFC 5389 section 15.9: UNKNOWN-ATTRIBUTES is a list of 16-bit attribute types.
 //@ func UnknownAttributes.AddTo(a, m)
@@ -911,6 +934,7 @@ package stun
 //@     decreases len(a) - rangeindex
 //@   props C03
 //@   ensures old(Wire(m)) ==> Wire(m)
+//@   ensures old(Built(m)) ==> Built(m)
 
 // ---- signing (C04, C05) ----
 
@@ -926,6 +950,7 @@ package stun
 //@   ensures be32(m.Raw, len(m.Raw) - 4) == xor32(crc32(m.Raw[:len(m.Raw) - 8]), 0x5354554e)
 //@   props C03
 //@   ensures old(Wire(m)) ==> Wire(m)
+//@   ensures old(Built(m)) ==> Built(m)
 
 //@ func MessageIntegrity.AddTo(i, msg)
 //@   safety C04 C03 C09
@@ -942,6 +967,7 @@ package stun
 //@     decreases len(msg.Attributes) - rangeindex
 //@   props C03
 //@   ensures old(Wire(msg)) ==> Wire(msg)
+//@   ensures old(Built(msg)) ==> Built(msg)
 
 // ---- Agent (C13: transaction-table specification; C14: lock discipline) ----
 
@@ -1173,6 +1199,39 @@ package stun
 //@   ensures sameslice(m.Attributes, old(m.Attributes))
 //@   ensures forall(k, 0, len(m.Attributes), m.Attributes[k].Type == old(m.Attributes[k].Type) && m.Attributes[k].Length == old(len(m.Attributes[k].Value)) && len(m.Attributes[k].Value) == old(len(m.Attributes[k].Value)))
 //@   ensures region(m.Raw) == old(region(m.Raw)) || fresh(m.Raw)
+//@   -- C03: after Encode the struct is the parse of the buffer, and every value keeps the bytes it had
+//@   props C03
+//@   ensures Wire(m)
+//@   ensures forall(k, 0, len(m.Attributes), forall(j, 0, len(m.Attributes[k].Value), m.Raw[vpos(WLens(m), k) + 4 + j] == old(m.Attributes[k].Value[j])), vpos(WLens(m), k))
+
+// ---- C03, composition lemmas (proof-only functions of verif_lemmas.go) ----
+
+//@ func verifLemmaDecodeOfWire(m)
+//@   safety C03
+//@   props C03
+//@   requires m != nil && Built(m) && Wire(m)
+//@   assigns m.Type, m.Length, m.TransactionID, m.Attributes, mem(m.Attributes)
+//@   -- every attribute header of the buffer carries the length of the struct's value (from WireHdr); stated in the
+//@   -- shape of the lemmas' hypotheses, so that these are discharged by look-up
+//@   assert forall(i, 0, old(len(m.Attributes)), be16(m.Raw, vpos(old(WLens(m)), i) + 2) == old(WLens(m))[i])
+//@   assert forall(i, 0, old(len(m.Attributes)), be16(m.Raw, vpos(old(WLens(m)), i) + 2) == old(WLens(m))[i] && old(WLens(m))[i] >= 0)
+//@   use forall(k, 0, old(len(m.Attributes)) + 1, start_vpos(m.Raw, old(WLens(m)), old(len(m.Attributes)), k), start(m.Raw, k))
+//@   use tlv_vpos(m.Raw, old(WLens(m)), old(len(m.Attributes)), old(len(m.Attributes)))
+//@   use mtype_decode_encode(old(m.Type.Method), old(m.Type.Class))
+//@   assert start(m.Raw, old(len(m.Attributes))) == 20 + old(m.Length)
+//@   assert tlv(m.Raw, 20, 20 + old(m.Length))
+//@   assert result == nil
+//@   -- the parser stops exactly after the last attribute of the struct: one more would not fit the declared body,
+//@   -- one fewer would leave the next header inside it
+//@   assert old(len(m.Attributes)) < len(m.Attributes) ==> start(m.Raw, old(len(m.Attributes))) + 4 <= 20 + be16(m.Raw, 2)
+//@   assert len(m.Attributes) <= old(len(m.Attributes))
+//@   assert len(m.Attributes) >= old(len(m.Attributes))
+//@   ensures result == nil
+//@   ensures m.Type.Method == old(m.Type.Method) && m.Type.Class == old(m.Type.Class) && m.Length == old(m.Length)
+//@   ensures forall(j, 0, 12, m.TransactionID[j] == old(m.TransactionID[j]))
+//@   ensures len(m.Attributes) == old(len(m.Attributes))
+//@   ensures forall(k, 0, len(m.Attributes), m.Attributes[k].Type == compat(old(m.Attributes[k].Type)) && m.Attributes[k].Length == old(m.Attributes[k].Length) && len(m.Attributes[k].Value) == old(len(m.Attributes[k].Value)))
+//@   ensures forall(k, 0, len(m.Attributes), forall(j, 0, len(m.Attributes[k].Value), m.Attributes[k].Value[j] == old(m.Attributes[k].Value[j])))
 
 //@ func Build(setters)
 //@   safety C03 C09
@@ -1181,7 +1240,7 @@ package stun
 //@   assigns ghost(setter_failed), ghost(setter_err_tag), ghost(setter_err_val)
 //@   allocates
 //@   ensures result1 == nil <==> ghost(setter_failed) == 0
-//@   ensures result1 == nil ==> result0 != nil && fresh(result0) && Built(result0)
+//@   ensures result1 == nil ==> result0 != nil && fresh(result0) && Built(result0) && Wire(result0)
 //@   ensures result1 != nil ==> result0 == nil && ghost(setter_err_tag) == errtag(result1) && ghost(setter_err_val) == errval(result1)
 
 //@ func (*Message).NewTransactionID(m)
